@@ -122,9 +122,10 @@ def gen_direct_ops(rng, spec, execute_op, view, nops):
             return
 
 
-def run_direct(spec, ops_in, rng=None, nops=0):
+def run_direct(spec, ops_in, rng=None, nops=0, np_seed=0):
     """Execute given ops (replay / corpus) or generate adaptively. Returns (log, seed_calls)."""
     m = sh.import_backend()
+    m["np"].random.seed(np_seed)     # the backend draws the per-trial table seed from the global numpy generator
     fake = sh.FakeTime()
     log = []
     cur = {"dt": 0.0}
@@ -339,11 +340,12 @@ def run(ctx, replay=None):
         if kind == "direct":
             if item.get("gen"):
                 spec = sh.gen_spec(rng, big=item.get("big", False))
-                log, seed_calls = run_direct(spec, None, rng=rng, nops=rng.choice([8, 20, 40, 70]))
+                np_seed = rng.randrange(2 ** 31)
+                log, seed_calls = run_direct(spec, None, rng=rng, nops=rng.choice([8, 20, 40, 70]), np_seed=np_seed)
             else:
-                spec = item["spec"]
-                log, seed_calls = run_direct(spec, item["ops"])
-            case = dict(kind="direct", spec=spec, ops=ops_for_replay(log))
+                spec, np_seed = item["spec"], item.get("np_seed", 0)
+                log, seed_calls = run_direct(spec, item["ops"], np_seed=np_seed)
+            case = dict(kind="direct", spec=spec, ops=ops_for_replay(log), np_seed=np_seed)
             sleeps, err = [], None
         else:
             if item.get("gen"):
